@@ -1108,7 +1108,7 @@ def run(ck, tier, rng):
     ck.build = coq_build("C15", extra_targets=["gen/GenC15.vo"])
     diffs = 0
     first = None
-    concrete_before = len(ck.violations) + len(ck.known_hits)
+    concrete_before = len(ck.violations)
 
     # ---- unit level
     ucases = gen_unit(tier, rng)
@@ -1170,7 +1170,7 @@ def run(ck, tier, rng):
     finally:
         shutil.rmtree(tmp, ignore_errors=True)
 
-    if diffs and len(ck.violations) + len(ck.known_hits) == concrete_before:
+    if diffs and len(ck.violations) == concrete_before:
         ck.violation("correspondence",
                      "model/Image.v and python-pptx disagree on %d cases, e.g. %r: model=%s impl=%s; the oracle found no input "
                      "on which the property itself fails" % (diffs, first[0], first[1], first[2]),
